@@ -11,7 +11,8 @@
    Not compared: float32 values of numeric tokens (strconv is trusted; the
    representation and the flag are compared), error messages.
 
-   codes: 0 agree; 1 results differ; 2 skipped; 3 implementation panicked
+   codes: 0 agree; 1 results differ; 2 skipped (An+B value outside int64: Go's
+   float32 -> int conversion is implementation-dependent there); 3 implementation panicked
    where the model returns a value; 4 model panics / runs out of fuel where the
    implementation returned. *)
 From Verif Require Export Base.GoSem Css.Token Css.TokenEq Css.Tok Css.Parse.
@@ -62,12 +63,21 @@ Definition nth_eqb (a b : nth_out) : bool :=
   | _, _ => false
   end.
 
+(* int(float32) of a value >= 2^63 is implementation-dependent in Go (amd64 yields
+   math.MinInt64): such An+B results are skipped (code 2) *)
+Definition in_int64 (z : Z) : bool := ((- 9223372036854775808 <=? z) && (z <=? 9223372036854775807))%Z.
+Definition nth_skipped (r : res nth_out) : bool :=
+  match r with
+  | Ok (NthSome a b) => negb (in_int64 a && in_int64 b)
+  | _ => false
+  end.
+
 Definition check (c : case) : N :=
   match c, model_out c with
+  | CNth _ cr out, ONth r => if nth_skipped r then 2%N else cmp nth_eqb r cr out
   | CTok _ _ cr out, OTokens r => cmp tokens_eqb r cr out
   | CSheet _ _ _ cr out, OCompounds r | CBlocks _ cr out, OCompounds r
   | CDecls _ _ _ cr out, OCompounds r | COneDecl _ _ cr out, OCompounds r => cmp compounds_eqb r cr out
-  | CNth _ cr out, ONth r => cmp nth_eqb r cr out
   | _, _ => 1%N
   end.
 
